@@ -35,18 +35,18 @@ Allowed(m, t, tg, p) == LET c == Cand(m, t, tg, p) IN
    IF c = {} THEN {p} ELSE {q \in c : \A r \in c : Abs(q - p) <= Abs(r - p)}
 
 AlignPoint ==
-  /\ outcome = "running" /\ d <= NDatasets /\ k <= Len(axes[d])
+  /\ outcome = "running" /\ d <= Len(axes) /\ k <= Len(axes[d])
   /\ \E q \in Allowed(method, tol, target, axes[d][k]) :
         assign' = IF Len(assign) < d THEN Append(assign, <<q>>) ELSE [assign EXCEPT ![d] = Append(@, q)]
   /\ k' = k + 1 /\ UNCHANGED <<axes, tol, method, d, target, outcome>>
 
 FinishDataset ==
-  /\ outcome = "running" /\ d <= NDatasets /\ k = Len(axes[d]) + 1
+  /\ outcome = "running" /\ d <= Len(axes) /\ k = Len(axes[d]) + 1
   /\ LET vals == Range(assign[d]) IN
        IF Cardinality(vals) # Len(assign[d])
        THEN outcome' = "AlignDatasetError" /\ UNCHANGED <<target, d, k>>
        ELSE /\ target' = target \cup vals /\ d' = d + 1 /\ k' = 1
-            /\ outcome' = IF d + 1 > NDatasets THEN "done" ELSE "running"
+            /\ outcome' = IF d + 1 > Len(axes) THEN "done" ELSE "running"
   /\ UNCHANGED <<axes, tol, method, assign>>
 
 Next == AlignPoint \/ FinishDataset
@@ -54,10 +54,10 @@ Spec == Init /\ [][Next]_vars
 
 -------------------------------------------------------------------------------
 Done == outcome = "done"
-Points == {<<i, j>> \in (1..NDatasets) \X (1..MaxLen) : j <= Len(axes[i])}
+Points == UNION {{<<i, j>> : j \in 1..Len(axes[i])} : i \in 1..Len(axes)}
 Members(q) == {pt \in Points : assign[pt[1]][pt[2]] = q}     \* columns stacked at aligned point q
 
-ExactlyOne == Done => \A i \in 1..NDatasets : Len(assign[i]) = Len(axes[i])
+ExactlyOne == Done => \A i \in 1..Len(axes) : Len(assign[i]) = Len(axes[i])
 ItselfOrAligned == Done => \A pt \in Points : LET p == axes[pt[1]][pt[2]] q == assign[pt[1]][pt[2]] IN
      q = p \/ (Abs(q - p) <= tol /\ Side(method, q, p))
 (* a point is only moved onto a point that was aligned before its dataset was processed, and onto the nearest such *)
@@ -68,9 +68,9 @@ Nearest == Done => \A pt \in Points : LET p == axes[pt[1]][pt[2]] q == assign[pt
 MergedWhenPossible == Done => \A pt \in Points : LET p == axes[pt[1]][pt[2]] q == assign[pt[1]][pt[2]]
                                           earlier == UNION {Range(assign[i]) : i \in 1..(pt[1] - 1)} IN
      Cand(method, tol, earlier, p) # {} => q \in Cand(method, tol, earlier, p)
-AlignedAxisIsUnion == Done => target = UNION {Range(assign[i]) : i \in 1..NDatasets}
+AlignedAxisIsUnion == Done => target = UNION {Range(assign[i]) : i \in 1..Len(axes)}
 EveryColumnOnce == Done => /\ \A pt \in Points : Cardinality({q \in target : pt \in Members(q)}) = 1
                            /\ \A q \in target : \A a \in Members(q), b \in Members(q) : a[1] = b[1] => a = b
 RefusedIffAmbiguous == outcome = "AlignDatasetError" => Cardinality(Range(assign[d])) < Len(assign[d])
-NeverMergesOwnPoints == Done => \A i \in 1..NDatasets : Cardinality(Range(assign[i])) = Len(axes[i])
+NeverMergesOwnPoints == Done => \A i \in 1..Len(axes) : Cardinality(Range(assign[i])) = Len(axes[i])
 ===============================================================================
